@@ -19,7 +19,7 @@ import (
 
 var c08Keys = []string{"200", "2XX", "404", "4XX", "default"}
 var c08Statuses = []int{200, 201, 204, 301, 304, 307, 308, 400, 404, 500, 99, 600}
-var c08Bodies = []string{"valid", "other-entry-marker", "with-writeOnly", "with-readOnly", "wrong-type", "none", "malformed-json"}
+var c08Bodies = []string{"valid", "other-entry-marker", "with-writeOnly", "with-readOnly", "wrong-type", "none", "malformed-json", "without-marker"}
 var c08ContentTypes = []string{"application/json", "application/json; charset=utf-8", "text/plain", ""}
 
 type c08Case struct {
@@ -41,8 +41,9 @@ func (c c08Case) sig() string {
 }
 
 func c08BodySchema(marker string) map[string]any {
-	return m("type", "object", "properties", m("k", m("type", "string", "enum", l(marker)), "w", m("type", "string", "writeOnly", true), "r", m("type", "string", "readOnly", true), "n", m("type", "integer")),
-		"required", l("k", "w"))
+	return m("type", "object", "properties", m("k", m("type", "string", "enum", l(marker)), "w", m("type", "string", "writeOnly", true), "w2", m("type", "string", "writeOnly", true), "r", m("type", "string", "readOnly", true), "n", m("type", "integer")),
+		// the marker is required between two required writeOnly properties (which a response need not and must not carry)
+		"required", l("w", "k", "w2"))
 }
 
 func (c c08Case) document() map[string]any {
@@ -210,6 +211,8 @@ func init() {
 				bodyVal = m("k", sel, "r", "x")
 			case "wrong-type":
 				bodyVal = m("k", sel, "n", "x")
+			case "without-marker":
+				bodyVal = m("n", 1.0) // the required marker is missing (as are the required writeOnly properties, legitimately)
 			}
 			var bodyBytes []byte
 			if bodyVal != nil {
